@@ -1434,7 +1434,13 @@ class Executor:
                 print("loop", lid, "round", _round, "new writes", sorted(self.describe_loc(r, p_) for r, p_ in new - written)[:8],
                       "inv", {self.describe_loc(r, p_): v for (r, p_), v in list(inv.items())[:6]})
             new_inv = self.join_invariants(st, new_written, inv, backs, _round, dropped)
+            prev_tinv = {k_: (set(v_) if isinstance(v_, (set, frozenset)) else v_) for k_, v_ in tinv.items()} if isinstance(tinv, dict) else tinv
             new_tinv = self.template_invariants(st, new_written, backs, tinv)
+            tinv = prev_tinv
+            if tinv is not None and new_tinv != tinv and set(new_inv) - set(inv):
+                # interval invariants for further locations were found only now (a leaf of a struct that was still an
+                # unexpanded symbol a round earlier): relational candidates dropped without them are tried again
+                new_tinv = tinv
             if os.environ.get("AIM_DEBUG_LOOP") == "3" and new_tinv:
                 print("loop", lid.split("::")[-1], "round", _round, "struct-inv", {k[2]: sorted(v) for k, v in new_tinv.items() if k[0] == "S"})
             if new_written == written and new_inv == inv and new_tinv == tinv:
@@ -1573,8 +1579,29 @@ class Executor:
         return rets, exits
 
     def struct_fields(self, v):
-        names = [f["name"] for f in self.F.adts[v.name]["variants"][0]["fields"]]
-        return {n: v.fields[i] for i, n in enumerate(names) if i < len(v.fields)}
+        # {field name: value}; a field that is itself a plain struct of the crate is flattened (`span.x_left`)
+        out = {}
+
+        def walk(x, adt, prefix, depth):
+            a = self.F.adts.get(adt)
+            if a is None:
+                return
+            for i, f in enumerate(a["variants"][0]["fields"]):
+                if i >= len(x.fields):
+                    continue
+                fv = x.fields[i]
+                t = f["ty"]
+                sub = self.F.adts.get(t.get("def")) if t.get("k") == "adt" else None
+                if sub is not None and depth < 2 and sub.get("kind") == "struct" and sub["id"].startswith(self.F.crate + "::") \
+                        and not t.get("args") and not (sub.get("generics") or {}).get("params"):
+                    if isinstance(fv, SymV):
+                        fv = self.expand_sym(fv)
+                    if isinstance(fv, Agg):
+                        walk(fv, t["def"], prefix + f["name"] + ".", depth + 1)
+                        continue
+                out[prefix + f["name"]] = fv
+        walk(v, v.name, "", 0)
+        return out
 
     def struct_leaves(self, root, path, v, out, depth=0):
         if depth > 4 or not isinstance(v, Agg):
@@ -1969,6 +1996,12 @@ class Executor:
                         cur = self.read(st, root, path)
                 except Undecided:
                     cur = None
+                if isinstance(cur, SymV) and cur.ty is not None and cur.ty.get("k") == "adt" and not cur.ty.get("args"):
+                    a_ = self.F.adts.get(cur.ty.get("def"))
+                    if a_ is not None and a_.get("kind") == "struct" and a_["id"].startswith(self.F.crate + "::"):
+                        # a plain struct of the crate still held as one symbol (`self.span`): havoc it field by field so
+                        # that the interval invariants of its leaves apply
+                        cur = self.expand_sym(cur) or cur
                 if cur is not None and cur is not Undef:
                     new = self.havoc_like(cur, name, inv, root, tuple((s_[0], s_[1]) for s_ in path), top=True)
                 else:
@@ -2252,6 +2285,10 @@ class Executor:
             return {"k": "ref", "mut": True, "ty": ta[0]}
         if d == "core::array::iter::IntoIter" and ta:
             return ta[0]
+        if d in ("core::slice::iter::ChunksExact", "core::slice::iter::Chunks") and ta:
+            return {"k": "ref", "mut": False, "ty": {"k": "slice", "ty": ta[0]}}
+        if d in ("core::slice::iter::ChunksExactMut", "core::slice::iter::ChunksMut") and ta:
+            return {"k": "ref", "mut": True, "ty": {"k": "slice", "ty": ta[0]}}
         if d in ("core::ops::range::Range", "core::ops::range::RangeInclusive") and ta:
             return ta[0]
         if d in ("core::iter::adapters::copied::Copied", "core::iter::adapters::cloned::Cloned") and ta:
